@@ -34,8 +34,9 @@ VARIABLES tid, di, l,
           inpool,   \* [connection -> listed by the pool when last seen]
           pst,      \* [connection -> state string last seen]
           tainted,  \* connections hit by the evict || activate race
-          hit       \* requests that saw a failure on a tainted connection
-vars == <<tid, di, l, phase, cnt, inpool, pst, tainted, hit>>
+          hit,      \* requests that saw a failure on a tainted connection
+          dup       \* a caller failed with the signature of a duplicated HTTP/2 stream id (MuxStreamIdRace)
+vars == <<tid, di, l, phase, cnt, inpool, pst, tainted, hit, dup>>
 
 T  == Traces[tid]
 N  == Len(T.ev)
@@ -49,20 +50,20 @@ TInit ==
   /\ tid \in 1..Len(Traces) /\ di \in 1..Len(DevChoices) /\ l = 1
   /\ phase = [r \in 1..8 |-> "init"]
   /\ cnt = [c \in Conns |-> 0] /\ inpool = [c \in Conns |-> FALSE] /\ pst = [c \in Conns |-> ""]
-  /\ tainted = {} /\ hit = {}
+  /\ tainted = {} /\ hit = {} /\ dup = FALSE
 
 Step(e) == l <= N /\ Ev.e = e /\ l' = l + 1 /\ UNCHANGED <<tid, di>>
 
 Call == Step("Call") /\ phase[Ev.r] = "init"
-        /\ phase' = [phase EXCEPT ![Ev.r] = "called"] /\ UNCHANGED <<cnt, inpool, pst, tainted, hit>>
+        /\ phase' = [phase EXCEPT ![Ev.r] = "called"] /\ UNCHANGED <<cnt, inpool, pst, tainted, hit, dup>>
 
 Got == Step("Got") /\ phase[Ev.r] = "called"
        /\ Ev.tokok /\ Ev.route = "ok" /\ Ev.nsent <= 1                 \* Own, Once
-       /\ phase' = [phase EXCEPT ![Ev.r] = "got"] /\ UNCHANGED <<cnt, inpool, pst, tainted, hit>>
+       /\ phase' = [phase EXCEPT ![Ev.r] = "got"] /\ UNCHANGED <<cnt, inpool, pst, tainted, hit, dup>>
 
 Body == Step("Body") /\ phase[Ev.r] = "got"
         /\ Ev.bodyok                                                      \* Own
-        /\ phase' = [phase EXCEPT ![Ev.r] = "body"] /\ UNCHANGED <<cnt, inpool, pst, tainted, hit>>
+        /\ phase' = [phase EXCEPT ![Ev.r] = "body"] /\ UNCHANGED <<cnt, inpool, pst, tainted, hit, dup>>
 
 (* after every scheduling quantum: the pool and its connections through the public surface *)
 Obs ==
@@ -82,20 +83,28 @@ Obs ==
         /\ cnt' = [c \in Conns |-> IF c \in K THEN Ev.cs[c].cnt ELSE cnt[c]]
         /\ inpool' = [c \in Conns |-> c \in K /\ pooled(c)]
         /\ pst' = [c \in Conns |-> IF c \in K THEN Ev.cs[c].st ELSE pst[c]]
-  /\ UNCHANGED <<phase, hit>>
+  /\ UNCHANGED <<phase, hit, dup>>
 
 (* a network operation failed although nothing was injected *)
+(* DEVIATION MuxStreamIdRace (KF12): threads multiplexed on ONE HTTP/2 connection.  The stream id is
+   read from the h2 state machine (get_next_available_stream_id) and only consumed later (send_headers),
+   with no lock around the two: two threads are given the same id.  The h2 library refuses the second
+   HEADERS on it (LocalProtocolError for one caller), the clean-up of the other deletes events that are no
+   longer there (a raw KeyError), and the connection may be failed by the server for everybody. *)
+MuxRace == Dev("MuxStreamIdRace") /\ ("mux" \in DOMAIN T.cfg) /\ T.cfg.mux
+
 Fault ==
   /\ Step("Fault")
-  /\ Ev.c \in tainted                                                    \* NoFail
+  /\ Ev.c \in tainted \/ MuxRace                                         \* NoFail
   /\ hit' = hit \cup {Ev.r}
-  /\ UNCHANGED <<phase, cnt, inpool, pst, tainted>>
+  /\ UNCHANGED <<phase, cnt, inpool, pst, tainted, dup>>
 
 Ret ==
   /\ Step("Ret")
   /\ Ev.nsent <= 1                                                       \* Once
-  /\ \/ Ev.out = "ok" /\ phase[Ev.r] = "body"
-     \/ Ev.out = "exc" /\ Ev.r \in hit                                   \* NoFail ("internal" never passes)
+  /\ \/ Ev.out = "ok" /\ phase[Ev.r] = "body" /\ UNCHANGED dup
+     \/ Ev.out = "exc" /\ Ev.r \in hit /\ UNCHANGED dup                   \* NoFail ("internal" never passes)
+     \/ MuxRace /\ Ev.out \in {"exc", "internal"} /\ ("why" \in DOMAIN Ev) /\ Ev.why = "dup-stream-id" /\ dup' = TRUE
   /\ phase' = [phase EXCEPT ![Ev.r] = "ret"]
   /\ UNCHANGED <<cnt, inpool, pst, tainted, hit>>
 
@@ -107,7 +116,8 @@ End ==
   /\ Len(Ev.pool) <= T.cfg.maxConn
   /\ Len(Ev.idle) <= T.cfg.maxKeep
   /\ SeqToSet(Ev.open) \subseteq SeqToSet(Ev.pool)
-  /\ UNCHANGED <<phase, cnt, inpool, pst, tainted, hit>>
+  /\ Dev("MuxStreamIdRace") => dup           \* (the deviation explains an execution only if the race is in it)
+  /\ UNCHANGED <<phase, cnt, inpool, pst, tainted, hit, dup>>
 
 TNext == Call \/ Got \/ Body \/ Obs \/ Fault \/ Ret \/ End
 TSpec == TInit /\ [][TNext]_vars
